@@ -8,7 +8,7 @@
    the file layer preserves and what it does not (gbk, a table, stays an oracle).
    [in_order] (Spec/C20.v) is "each middleware applied to the result of the one before, left to right". *)
 From Coq Require Import String List NArith ZArith Bool.
-From BP Require Import Base.Chars Model.Blocks Model.Writer Model.Stack Spec.C20 Proofs.StackProofs Model.TextIO Proofs.TextIOProofs Proofs.TextIOChunks Proofs.TextIOBytes.
+From BP Require Import Base.Chars Model.Blocks Model.Writer Model.Stack Spec.C20 Proofs.StackProofs Model.TextIO Proofs.TextIOProofs Proofs.TextIOChunks Proofs.TextIOBytes Proofs.WriterNoCR.
 Import ListNotations.
 
 (* parse_string = splitting, then exactly the given parse_stack in the given order, or the default stack followed by
@@ -202,6 +202,16 @@ Theorem C20_text_utf8_read_not_injective_with_cr :
   read_text Utf8 [97; 13; 10] = read_text Utf8 [97; 10] /\ read_text Utf8 [97; 13] = read_text Utf8 [97; 10].
 Proof. exact utf8_read_not_injective_with_cr. Qed.
 Print Assumptions C20_text_utf8_read_not_injective_with_cr.
+
+(* END TO END, writer model + text layer: what write_file puts into a file for a library without carriage returns, under a format
+   without carriage returns, comes back from the file exactly - the code points of the text the writer model produces
+   (cps: the code of every model character) survive every modelled codec that can encode them.  The premise is on the
+   LIBRARY and the FORMAT, not on the written text: C06_write_no_cr carries it across the writer. *)
+Theorem C20_text_written_library_survives_the_file : forall f bs s e bytes,
+  fmt_ok f = true -> forallb block_ok bs = true -> write f bs = Val s ->
+  write_text e (cps s) = Some bytes -> read_text e bytes = Some (cps s).
+Proof. exact written_library_survives_the_file. Qed.
+Print Assumptions C20_text_written_library_survives_the_file.
 
 (* non-vacuity: a document with a non-ASCII letter, an astral character and a CRLF line end, through each codec *)
 Example C20_text_example :
